@@ -64,6 +64,10 @@ POSITIONS = {
     "preserve-filter": (ok_filter, lambda s: [":preserve", "\t" + s], lambda s: s + "&#x000A;\n"),
     "css-filter": (ok_filter, lambda s: [":css", "\t" + s], lambda s: "<style>\n" + s + "\n</style>"),
     "javascript-filter": (ok_filter, lambda s: [":javascript", "\t" + s], lambda s: "<script>\n" + s + "\n</script>"),
+    # the same bodies cut by an interpolation: the text before it is a chunk of its own (a constant expression stands for the value)
+    "plain-filter-before-interpolation": (ok_filter, lambda s: [":plain", "\t" + s + '#{"Z"}'], lambda s: s + "Z\n"),
+    "preserve-filter-before-interpolation": (ok_filter, lambda s: [":preserve", "\t" + s + '#{"Z"}'], lambda s: s + "Z&#x000A;\n"),
+    "css-filter-before-interpolation": (ok_filter, lambda s: [":css", "\t" + s + '#{"Z"}'], lambda s: "<style>\n" + s + "Z\n</style>"),
     "escaped-filter": (ok_filter, lambda s: [":escaped", "\t" + s], lambda s: esc(s) + "\n"),
     "tag": (ok_ident, lambda s: ["%" + s + " x"], lambda s: "<" + s + ">x</" + s + ">\n"),
     "id": (ok_ident, lambda s: ["%p#" + s + " x"], lambda s: '<p id="' + esc(s) + '">x</p>\n'),
